@@ -95,7 +95,7 @@ macro_rules! range_inst {
                 match prec { $($P => if crate::tab::narrow::<<$W as crate::tab::NarrowOf>::N, $P>() { self.0.decode_symbol(Tab::<<$W as crate::tab::NarrowOf>::N, $P>::new(cdf)).map_err(dec_err) } else { self.0.decode_symbol(Tab::<$W, $P>::new(cdf)).map_err(dec_err) },)* _ => panic!("unsupported precision {}", prec) }
             }
             fn dec_iid(&mut self, prec: usize, cdf: &[u64], n: usize) -> Vec<Result<usize, String>> {
-                match prec { $($P => if crate::tab::narrow::<<$W as crate::tab::NarrowOf>::N, $P>() { self.0.decode_iid_symbols(n, Tab::<<$W as crate::tab::NarrowOf>::N, $P>::new(cdf)).map(|r| r.map_err(dec_err)).collect() } else { self.0.decode_iid_symbols(n, Tab::<$W, $P>::new(cdf)).map(|r| r.map_err(dec_err)).collect() },)* _ => panic!("unsupported precision {}", prec) }
+                match prec { $($P => if crate::tab::narrow::<<$W as crate::tab::NarrowOf>::N, $P>() { self.0.decode_iid_symbols(n, Tab::<<$W as crate::tab::NarrowOf>::N, $P>::new(cdf)).take(n + 5).map(|r| r.map_err(dec_err)).collect() } else { self.0.decode_iid_symbols(n, Tab::<$W, $P>::new(cdf)).take(n + 5).map(|r| r.map_err(dec_err)).collect() },)* _ => panic!("unsupported precision {}", prec) }
             }
             fn dec_symbols(&mut self, prec: usize, tabs: &[Vec<u64>]) -> Vec<Result<usize, String>> {
                 match prec { $($P => if crate::tab::narrow::<<$W as crate::tab::NarrowOf>::N, $P>() { self.0.decode_symbols(tabs.iter().map(|c| Tab::<<$W as crate::tab::NarrowOf>::N, $P>::new(c))).map(|r| r.map_err(dec_err)).collect() } else { self.0.decode_symbols(tabs.iter().map(|c| Tab::<$W, $P>::new(c))).map(|r| r.map_err(dec_err)).collect() },)* _ => panic!("unsupported precision {}", prec) }
